@@ -23,7 +23,8 @@ COLNAMES = ['id', 'a', 'id2', 'b']
 
 SHAPES = ['join', 'in_subquery', 'not_in_subquery', 'scalar_subquery', 'target_subquery', 'union', 'union_all', 'intersect', 'except', 'intersect_all',
           'except_all', 'cte', 'nested', 'join_subselect', 'three', 'three_mixed', 'case_subquery', 'func_subquery', 'single_integration_join',
-          'three_keys', 'three_keys_rev', 'three_star', 'in_subquery_join', 'in_subquery_join_rev', 'target_subquery_join', 'exists_subquery']
+          'three_keys', 'three_keys_rev', 'three_star', 'in_subquery_join', 'in_subquery_join_rev', 'target_subquery_join', 'exists_subquery',
+          'cte_collide', 'cte_collide_join', 'join_subselect_limit', 'join_subselect_star', 'join_subselect_distinct', 'join_subselect_offset']
 JOINS = ['JOIN', 'INNER JOIN', 'LEFT JOIN', 'RIGHT JOIN', 'FULL JOIN', 'LEFT OUTER JOIN', 'FULL OUTER JOIN', 'CROSS JOIN', 'implicit']
 ONS = [('equi', 't1.id = t2.id'), ('equi_rconst', 't1.id = t2.id AND t2.b = 1'), ('equi_lconst', 't1.id = t2.id AND t1.a = 1'),
        ('nonequi', 't1.a < t2.b'), ('equi_or', 't1.id = t2.id OR t1.a = t2.b'), ('rev_equi', 't2.id = t1.id'), ('equi2', 't1.id = t2.id AND t1.a = t2.b'),
@@ -276,6 +277,28 @@ def build(a):
                 return None
             full = body
             sql = body + tail(['t1.id', 't1.a', 'm']) + lim_sql()
+        elif shape in ('cte_collide', 'cte_collide_join'):
+            # a CTE named like a table of another integration, that table referenced by its qualified name in the same statement
+            if a['targets'] or group or wl not in ('none', 'left', 'gt'):
+                return None
+            cte = f'WITH t2 AS (SELECT t1.id, t1.a FROM {t1} WHERE t1.a > 1)'
+            if shape == 'cte_collide':
+                body = f'{cte} SELECT t1.id, t1.a, t2.id AS id2, t2.b FROM {t1} JOIN int2.t2 ON t1.id = t2.id WHERE t1.id IN (SELECT id FROM t2)' + (' AND ' + where if where else '')
+            else:
+                body = f'{cte} SELECT t1.id, t1.a, q.id AS id2, q.a AS b FROM {t1} JOIN int2.t2 AS s ON t1.id = s.id JOIN t2 AS q ON q.id = s.id' + (' WHERE ' + where if where else '')
+            full = body
+            sql = body + tail(['t1.id', 't1.a', 'id2', 'b']) + lim_sql()
+        elif shape in ('join_subselect_limit', 'join_subselect_star', 'join_subselect_distinct', 'join_subselect_offset'):
+            # a derived table with its own ORDER BY / LIMIT / DISTINCT, filtered again from outside
+            if a['targets'] or group or wl not in ('none', 'left', 'gt', 'right', 'neq', 'right_le', 'right_between'):
+                return None
+            inner = {'join_subselect_limit': 'SELECT * FROM int2.t2 ORDER BY b, id, y LIMIT 2', 'join_subselect_star': 'SELECT * FROM int2.t2',
+                     'join_subselect_distinct': 'SELECT DISTINCT t2.id, t2.b FROM int2.t2',
+                     'join_subselect_offset': 'SELECT * FROM int2.t2 ORDER BY b, id, y LIMIT 2 OFFSET 1'}[shape]
+            w2 = where.replace('t2.', 's.') if where else ''
+            body = f'SELECT t1.id, t1.a, s.id AS id2, s.b FROM {t1} JOIN ({inner}) AS s ON t1.id = s.id' + (' WHERE ' + w2 if w2 else '')
+            full = body
+            sql = body + tail(['t1.id', 't1.a', 's.id', 's.b']) + lim_sql()
         elif shape == 'single_integration_join':
             if a['targets'] or group or wl not in ('none', 'left', 'gt', 'not_left'):
                 return None
